@@ -330,10 +330,6 @@ def rule_resolution(ck, F):
         def cbm(e, env, ctx, f_=f_):
             if e.get("k") != "MethodCall":
                 return
-            if e["name"] == "attribute" and e["args"]:
-                a0 = Hh.strip(e["args"][0])
-                if a0.get("k") == "Lit" and a0.get("lit") == "str":
-                    attr_reads.setdefault(a0["v"], set()).add(f_)
             recv = W.NF.nf(e["recv"], env)
             on_parts = (isinstance(recv, tuple) and recv[0] == "field" and recv[2] == "parts") or is_parts_table(e["recv"])
             if e["name"] in ("get", "get_key_value") and on_parts and e["args"]:
@@ -346,6 +342,8 @@ def rule_resolution(ck, F):
             if e["name"] in ("next", "first") and not e["args"] and on_parts:
                 firsts.append((f_, e))
         W.walk_fn(f_, cbm)
+        for a_ in A.attribute_reads(F, f_):
+            attr_reads.setdefault(a_, set()).add(f_)
 
     def reaches_fetcher(f_):
         return f_ in fetchers or bool(scans.reachable(g, [f_]) & fetchers)
@@ -385,7 +383,7 @@ def rule_resolution(ck, F):
     for f_ in dict.fromkeys(pfns):
         nb_ = Hh.norm_body(F.lib.body(f_))
         for x in Hh.exprs(nb_["value"]):
-            if x.get("k") == "MethodCall" and x["name"] == "attribute" and x["args"] and Hh.strip(x["args"][0]).get("v") == "message":
+            if "message" in A.attribute_reads(F, f_):
                 reads_message = f_
             if x.get("k") in ("MethodCall", "Call") and (Hh.callee_path(x) or "") in msg_lookups:
                 resolves = True
